@@ -177,6 +177,12 @@ Definition full_auth (T : list key) (sigs : list sig) : bool :=
 Definition revocations (T keys : list key) (sigs : list sig) : list key :=
   filter (fun k => existsb (fun k' => is_rev k' && same_except_revoke k k' && negb (shadowed keys k') && existsb (sig_made_by k') sigs) keys) T.
 
+(* revocations that MAY be applied: the same without the shadowing condition (when two fetched KSKs share a
+   tag the code sees one of them — which one is its business; a self-signed revoked form that it does see
+   is a legitimate revocation) *)
+Definition revocations_may (T keys : list key) (sigs : list sig) : list key :=
+  filter (fun k => existsb (fun k' => is_rev k' && same_except_revoke k k' && existsb (sig_made_by k') sigs) keys) T.
+
 Record sstate := mk_ss {
   ss_cfg : list key;
   ss_record : list N;          (* materials that were anchors of record (configured / initially trusted) *)
@@ -277,9 +283,25 @@ Definition spec_run (ss : sstate) (pre : obs) (now : Z) (fe0 : fetch) (fl : faul
                               || memN (k_mat k) (mats (o_live post)))
                     (filter (fun k => memN (k_mat k) (mats (o_live pre))) T)
           else true in
+        (* S8: a revocation takes effect only on a valid self-signature made with THAT key.  (a) no key
+           material becomes recorded as revoked (tombstone or marker) unless it was recorded before, is
+           configured with the REVOKE bit, or its own valid self-signed revoked form is in this response;
+           (b) in a response accepted in revocation-only mode every other live anchor stays live (the only
+           exception is the fail-closed clear when both writes of an accepted revocation fail) *)
+        let may_mats := mats (revocations_may T keys sigs) in
+        let s_record :=
+          forallb (fun m => memN m (recorded pre) || memN m may_mats
+                            || memN m (mats (filter (fun k => is_ksk k && is_rev k) cfg)))
+                  (recorded post) in
+        let s_keep :=
+          if fa then true else
+            forallb (fun k => memN (k_mat k) may_mats
+                              || (f_twrite fl && f_swrite fl && negb (is_nil may_mats))
+                              || memN (k_mat k) (mats (o_live post)))
+                    (filter (fun k => memN (k_mat k) (mats (o_live pre))) T) in
         (* the revocation counts as persisted as soon as one of the two files was replaced in this run *)
         let rev_recorded := if is_nil renames then [] else rev_mats in
-        (unreadable_ok && s_immediate && s_perm && s_revonly && s_new && s_missing,
+        (unreadable_ok && s_immediate && s_perm && s_revonly && s_new && s_missing && s_record && s_keep,
          mk_ss cfg (ss_record ss) streak' prom (rev_recorded ++ ss_rev ss) (ss_rev ss) rev_mats absent'
                (ss_streak ss) (ss_absent ss) renames)
     end
